@@ -14,5 +14,6 @@ INVARIANT AscendingInv
 INVARIANT EdgesInv
 INVARIANT BinnerInv
 INVARIANT FitsInv
+INVARIANT RoutesAgree
 CONSTRAINT Emit
 CHECK_DEADLOCK FALSE
